@@ -349,3 +349,9 @@ func SelectStart(n int) int {
 // statements (files opted in with "go_gates"): the order in which freshly
 // started goroutines get going becomes a scheduler decision.
 func GoGate(site string) { sim.Yield(sim.GateGo, site) }
+
+// StmtGate is inserted by simgen between the statements of functions in files
+// opted in with "stmt_gates": a goroutine may be descheduled between any two
+// statements there, which exposes races on plain (unsynchronised) state that
+// lock/atomic gates alone cannot show.
+func StmtGate() { sim.Yield(sim.GateStmt, "stmt") }
